@@ -716,3 +716,60 @@ def run_clauses(d, names):
             r["name"] = nm
             out.append(r)
     return out
+
+
+# ----------------------------------------------------------------- C04
+def orthogonal_integral_curves(d, tol=2e-4):
+    """Orthogonal grids: the points with one poloidal index on successive flux surfaces lie on
+    one integral curve of grad(psi) (independent integration of the analytic gradient)."""
+    c = d["cfg"]
+    if c["kind"] != "tokamak" or not d["meta"]["orthogonal"]:
+        return None
+    from scipy.integrate import solve_ivp
+
+    psi = analytic_psi(c["geometry"], c["psi_sign"], c.get("mirror", False))
+    if c["options"].get("psi_interpolation_method") == "dct":
+        tol = 5e-3  # the grid follows its own interpolant; the DCT interpolant differs from the analytic psi by ~1e-3
+
+    def rhs(p, y):
+        gR, gZ = psi(y[0], y[1], 1), psi(y[0], y[1], 2)
+        g2 = gR * gR + gZ * gZ
+        return [gR / g2, gZ / g2]
+
+    fails, n, worst = [], 0, 0.0
+    for r in _regions(d):
+        m = r["mla"]
+        R, Z = m["Rxy"]["centre"], m["Zxy"]["centre"]
+        ny = R.shape[1]
+        js = list(range(1, ny - 1)) if ny > 2 else []
+        if len(js) > 4:
+            js = js[:: max(1, len(js) // 4)]
+        for j in js:
+            for i in range(R.shape[0] - 1):
+                p0 = psi(R[i, j], Z[i, j])
+                p1 = psi(R[i + 1, j], Z[i + 1, j])
+                if p0 == p1:
+                    continue
+                sol = solve_ivp(rhs, (p0, p1), [R[i, j], Z[i, j]], rtol=1e-10, atol=1e-12)
+                end = sol.y[:, -1]
+                dist = float(np.hypot(end[0] - R[i + 1, j], end[1] - Z[i + 1, j]))
+                step = float(np.hypot(R[i + 1, j] - R[i, j], Z[i + 1, j] - Z[i, j]))
+                n += 1
+                worst = max(worst, dist / step)
+                if dist > tol * max(step, 1e-3) + 2e-6:
+                    fails.append(dict(region=r["name"], i=i, j=j, distance_from_integral_curve=dist, radial_step=step))
+    return result("orthogonal: radial neighbours lie on one integral curve of grad(psi) (analytic gradient, independent ODE integration)", n, fails, worst, tol)
+
+
+def orthogonal_metric_zero(d):
+    if not d["meta"]["orthogonal"]:
+        return None
+    fails, n = [], 0
+    for r in _regions(d):
+        for nm in ("g12", "g13", "g_12", "g_13"):
+            if nm in r["mla"]:
+                for l, a in r["mla"][nm].items():
+                    n += a.size
+                    if np.any(a != 0):
+                        fails.append(dict(region=r["name"], comp=nm, loc=l, max=float(np.abs(a).max())))
+    return result("orthogonal grids: g12=g13=g_12=g_13=0", n, fails)
